@@ -17,6 +17,7 @@ package main
 import (
 	"encoding/json"
 	"fmt"
+	"sort"
 	"strings"
 
 	"github.com/martian-lang/martian/martian/core"
@@ -151,6 +152,7 @@ func c07PathStream(c *Ctx, n int) {
 				{"C07.path", dt.enc(), srcEnc, objEnc, fullPath, "new"},
 				{"C07.path", "-", srcEnc, objEnc, fullPath, "new"},
 				{"C07.proj", srcEnc, objEnc, fullPath},
+				{"C07.evalT", env.enc(), hx("PROD"), objEnc, dt.enc(), ref.enc()},
 			})
 			f := strings.SplitN(reps[0], " ", 3)
 			accepted, holeFree := len(f) >= 2 && f[0] == "true", len(f) >= 2 && f[1] == "true"
@@ -190,6 +192,43 @@ func c07PathStream(c *Ctx, n int) {
 					}
 					r.hist("path_value_equal")
 				}
+				// the same through the model's evalT / refRT (environment + store, as program_sound_partial uses them)
+				if len(reps) > 4 && reps[4] != reps[1] {
+					r.violate(Violation{Kind: "correspondence", Key: "C07:evalT:differs-from-path", What: "the model's evalT on a call reference and its pathVal (tied to the real Path) differ",
+						Input: in, Model: reps[4], Impl: reps[1], Broken: "correspondence evalT / refRT ~ Fork.resolveRef → LazyArgumentMap.Path"})
+					continue
+				}
+				r.hist("evalT_equals_real_path")
+				// `x = split REF` into a parameter of the element type: the model's deliveredT against the elements
+				// of what the real Path delivers for the whole collection (as multisets: a map's forks are keyed)
+				if rerr == nil && (dt.kind == 'a' || dt.kind == 'm') {
+					drep := c.Drv.Ask("C07.deliveredT", env.enc(), hx("PROD"), objEnc, dt.elem.enc(), c07Bind{split: true, e: ref}.enc())
+					rt, _ := c17ParseJSON(real)
+					var want []string
+					if rt != nil && (rt.kind == 'a' || rt.kind == 'o') {
+						for _, x := range rt.arr {
+							want = append(want, c07NormJ(x).enc(true))
+						}
+					}
+					var got []string
+					if mt, _, e2 := c17ParseEnc(strings.Split(drep, " ")); e2 == nil && mt != nil && mt.kind == 'a' {
+						for _, x := range mt.arr {
+							got = append(got, c07NormJ(x).enc(true))
+						}
+					}
+					sort.Strings(want)
+					sort.Strings(got)
+					switch {
+					case rt != nil && rt.kind == 'n':
+						r.hist("deliveredT_null_collection") // T-K3 territory: the real code makes no forks
+					case drep == "none" || strings.Join(want, "\x00") != strings.Join(got, "\x00"):
+						r.violate(Violation{Kind: "correspondence", Key: "C07:deliveredT:differs", What: "the model's deliveredT for `split REF` and the elements of the real Path's value differ",
+							Input: in, Model: drep, Impl: string(real), Broken: "correspondence deliveredT ~ resolveSplit over LazyArgumentMap.Path"})
+						continue
+					default:
+						r.hist("deliveredT_elements_equal")
+					}
+				}
 			} else if modelOk != (rerr == nil) {
 				r.hist("path_rejected_pair_differs") // outside what the run time is ever asked
 			}
@@ -221,9 +260,115 @@ func c07PathStream(c *Ctx, n int) {
 				} else if nerr == nil && reps[3] == "none" {
 					r.violate(Violation{Kind: "correspondence", Key: "C07:proj:undefined", What: "the real Path(dest = nil) succeeds on a conforming value but the model's project is undefined",
 						Input: in, Model: reps[3], Impl: string(realNil), Broken: "fieldType_sound (project)"})
+				} else if nerr == nil {
+					rt, perr := c17ParseJSON(realNil)
+					m2, _, e2 := c17ParseEnc(strings.Split(reps[2], " "))
+					m3, _, e3 := c17ParseEnc(strings.Split(reps[3], " "))
+					if perr != nil || e2 != nil || c07NormJ(rt).enc(true) != c07NormJ(m2).enc(true) {
+						r.violate(Violation{Kind: "correspondence", Key: "C07:path:nil-dest-value", What: "pathVal without destination and the real Path(dest = nil) deliver different values",
+							Input: in, Model: reps[2], Impl: string(realNil), Broken: "correspondence pathVal ~ LazyArgumentMap.Path"})
+					} else if e3 != nil || c07NormJ(rt).enc(true) != c07NormJ(m3).enc(true) {
+						// `project` (value level, used by fieldType_sound only) does not filter; the real Path
+						// filters a struct leaf with the member's own type even without a destination (pathVal
+						// models that and is compared by value above).  Counted, not a violation.
+						r.hist("path_nil_dest_equal_project_unfiltered_differs")
+					} else {
+						r.hist("path_nil_dest_and_project_values_equal")
+					}
 				} else {
 					r.hist("path_nil_dest_and_project_agree")
 				}
+			}
+		}
+	}
+}
+
+// c07WholeRefStream: `x = PROD` (the struct of all outputs of a singly-called stage) bound to a struct
+// with the same member at an assignable type, or to an untyped `map`: the model's evalT (→ wholeRT) against
+// the real LazyArgumentMap.Path("", source, dest) (→ LazyArgumentMap.filter), values compared.
+func c07WholeRefStream(c *Ctx, n int) {
+	r := c.Res
+	rng := c.Rng
+	for i := 0; i < n; i++ {
+		ot := c07RandType(rng)
+		if c07Undeclarable(ot) {
+			continue
+		}
+		env := &c07Env{prodMode: 's', prodOuts: []c17Field{{"o", ot}}}
+		ref := c07Ref('c', "PROD")
+		val := c17GenValid(rng, ot, 3)
+		rd := c17Render{rng: rng, ws: 0}
+		var vb strings.Builder
+		rd.render(&vb, val)
+		tree, err := c17ParseJSON([]byte(vb.String()))
+		if err != nil {
+			continue
+		}
+		objEnc := (&c17J{kind: 'o', keys: []string{"o"}, arr: []*c17J{tree}}).encModel()
+		dests := []*c17Ty{c07B("map")}
+		for _, mt := range c07DestCandidates(c, ot) {
+			if !c07Undeclarable(mt) {
+				dests = append(dests, &c17Ty{kind: 's', name: "SAME", fields: []c17Field{{"o", mt}}})
+			}
+		}
+		for _, dt := range dests {
+			var sb strings.Builder
+			sb.WriteString(c07Decls)
+			if dt.kind == 's' {
+				fmt.Fprintf(&sb, "struct SAME(\n    %s o,\n)\n\n", dt.fields[0].t.mro())
+			}
+			fmt.Fprintf(&sb, "stage PROD(\n    in  int seed,\n    out %s o,\n    src comp \"fake\",\n)\n\nstage CONS(\n    in  %s x,\n    out int r,\n    src comp \"fake\",\n)\n", ot.mro(), dt.mro())
+			ast, cerr := c07RealCompile(sb.String())
+			if cerr != nil {
+				r.note("whole-ref stream: declarations do not compile: %v", firstLine(cerr.Error()))
+				continue
+			}
+			dest := ast.TypeTable.Get(dt.typeId())
+			if dest == nil {
+				continue
+			}
+			reps := c.Drv.AskBatch([][]string{
+				{"C07.exp", env.enc(), dt.enc(), ref.enc()},
+				{"C07.evalT", env.enc(), hx("PROD"), objEnc, dt.enc(), ref.enc()},
+			})
+			f := strings.SplitN(reps[0], " ", 3)
+			accepted, holeFree := len(f) >= 2 && f[0] == "true", len(f) >= 2 && f[1] == "true"
+			r.count(sb.String()+vb.String(), true)
+			r.hist(fmt.Sprintf("whole_ref_accepted=%v_holeFree=%v", accepted, holeFree))
+			if !accepted {
+				continue
+			}
+			real, rerr := c07RealPath(ast, []byte(vb.String()), nil, dest)
+			in := map[string]interface{}{"out_type": ot.mro(), "param_type": dt.mro(), "value": vb.String(), "model_holeFree": holeFree, "real_error": fmt.Sprint(rerr)}
+			modelOk := reps[1] != "none"
+			if modelOk != (rerr == nil) {
+				r.violate(Violation{Kind: "correspondence", Key: fmt.Sprintf("C07:whole:model=%v,real=%v", modelOk, rerr == nil),
+					What: "the model's evalT (wholeRT) and the real LazyArgumentMap.Path(\"\", …) disagree on whether `x = PROD` resolves", Input: in,
+					Model: reps[1], Impl: fmt.Sprint(rerr), Broken: "correspondence wholeRT ~ LazyArgumentMap.filter"})
+				continue
+			}
+			if rerr != nil {
+				continue
+			}
+			rt, perr := c17ParseJSON(real)
+			mt, _, e2 := c17ParseEnc(strings.Split(reps[1], " "))
+			if perr != nil || e2 != nil || c07NormJ(rt).enc(true) != c07NormJ(mt).enc(true) {
+				in["real_value"] = string(real)
+				r.violate(Violation{Kind: "correspondence", Key: "C07:whole:value", What: "the model's evalT (wholeRT) and the real LazyArgumentMap.Path(\"\", …) deliver different values for `x = PROD`",
+					Input: in, Model: reps[1], Impl: string(real), Broken: "correspondence wholeRT ~ LazyArgumentMap.filter"})
+				continue
+			}
+			r.hist("whole_ref_value_equal")
+			if holeFree {
+				var alarms strings.Builder
+				if verr := dest.IsValidJson(real, &alarms, &ast.TypeTable); verr != nil || alarms.Len() > 0 {
+					in["real_value"] = string(real)
+					r.violate(Violation{Kind: "property", Key: "C07:delivered:invalid",
+						What:  "the value the real Path delivers for an accepted, holeFree whole-call reference does not validate against the parameter type: " + firstLine(fmt.Sprint(verr, alarms.String())),
+						Input: in, Broken: "validExp_sound_rt_partial"})
+					continue
+				}
+				r.hist("whole_ref_delivered_valid")
 			}
 		}
 	}
